@@ -137,12 +137,12 @@ Definition refute_reqs : list req :=
 Theorem extra_comments_only_add_refuted_lemma :
   exists cf gaps rs, ~ Forall2 keeps (gen_locs cf false false gaps [] rs) (gen_locs cf true false gaps [] rs).
 Proof.
-  exists cfg_asis, refute_gaps, refute_reqs. intros H.
-  assert (E : gen_locs cfg_asis false false refute_gaps [] refute_reqs
+  exists cfg_pinned, refute_gaps, refute_reqs. intros H.
+  assert (E : gen_locs cfg_pinned false false refute_gaps [] refute_reqs
               = [mkloc false [4; 0; 2; 0]%Z [3; 2; 39]%Z [] [] [];
                  mkloc false [4; 0; 2; 0; 5]%Z [3; 2; 7]%Z [] [] [];
                  mkloc false [4; 0; 3; 0]%Z [3; 2; 39]%Z [] [] [(0, 0)]]) by (vm_compute; reflexivity).
-  assert (E2 : gen_locs cfg_asis true false refute_gaps [] refute_reqs
+  assert (E2 : gen_locs cfg_pinned true false refute_gaps [] refute_reqs
               = [mkloc false [4; 0; 2; 0]%Z [3; 2; 39]%Z [] [] [];
                  mkloc false [4; 0; 2; 0; 5]%Z [3; 2; 7]%Z [] [] [(0, 0)];
                  mkloc false [4; 0; 3; 0]%Z [3; 2; 39]%Z [] [] []]) by (vm_compute; reflexivity).
@@ -363,4 +363,67 @@ Proof.
   destruct sp as [|l [|c [|x [|y [|z r]]]]]; try (split; [discriminate|intros []]).
   - rewrite !andb_true_iff, !Z.leb_le, Z.ltb_lt. lia.
   - rewrite !andb_true_iff, !Z.leb_le, !Z.ltb_lt. lia.
+Qed.
+
+(* ================================================================ the comments of a gap occur in its bytes *)
+Definition delim (blk : bool) : list N := if blk then [47; 42]%N else [47; 47]%N.
+
+Lemma gap_tokens_in fuel : forall bs ts blk text,
+  gap_tokens fuel bs = Some ts -> In (TCm blk text) ts ->
+  exists a b, bs = a ++ delim blk ++ text ++ b.
+Proof.
+  induction fuel as [|f IH]; intros bs ts blk text H Hin; cbn [gap_tokens] in H.
+  - destruct bs; [injection H as <-; destruct Hin|discriminate].
+  - destruct bs as [|c r]; [injection H as <-; destruct Hin|].
+    destruct (c =? 10)%N.
+    { destruct (gap_tokens f r) as [ts'|] eqn:G; [|discriminate]. injection H as <-.
+      destruct Hin as [Hd|Hin]; [discriminate|].
+      destruct (IH r ts' blk text G Hin) as (a & b & ->). exists (c :: a), b. reflexivity. }
+    destruct (is_ws c).
+    { destruct (IH r ts blk text H Hin) as (a & b & ->). exists (c :: a), b. reflexivity. }
+    destruct (N.eqb_spec c 47) as [->|_]; [|discriminate].
+    destruct r as [|d r2]; [discriminate|].
+    destruct (N.eqb_spec d 47) as [->|_].
+    { destruct (scan_line_comment r2) as [m| |]; try discriminate.
+      destruct (gap_tokens f (skipn m r2)) as [ts'|] eqn:G; [|discriminate]. injection H as <-.
+      destruct Hin as [Hd|Hin].
+      - injection Hd as <- <-. exists [], (skipn m r2). cbn [app delim]. now rewrite firstn_skipn.
+      - destruct (IH _ ts' blk text G Hin) as (a & b & E).
+        exists (47%N :: 47%N :: firstn m r2 ++ a), b. cbn [app]. rewrite <- app_assoc, <- E. now rewrite firstn_skipn. }
+    destruct (N.eqb_spec d 42) as [->|_]; [|discriminate].
+    destruct (scan_block_comment r2) as [m| |]; try discriminate.
+    destruct (gap_tokens f (skipn m r2)) as [ts'|] eqn:G; [|discriminate]. injection H as <-.
+    destruct Hin as [Hd|Hin].
+    + injection Hd as <- <-. exists [], (skipn (m - 2) r2). cbn [app delim]. now rewrite firstn_skipn.
+    + destruct (IH _ ts' blk text G Hin) as (a & b & E).
+      exists (47%N :: 42%N :: firstn m r2 ++ a), b. cbn [app]. rewrite <- app_assoc, <- E. now rewrite firstn_skipn.
+Qed.
+
+Lemma leading_nls_suffix ts : forall x, In x (snd (leading_nls ts)) -> In x ts.
+Proof.
+  induction ts as [|t r IH]; intros x H; cbn [leading_nls] in H; [exact H|].
+  destruct t; [|exact H].
+  destruct (leading_nls r) as [n r'] eqn:E. cbn [snd] in *. right. now apply IH.
+Qed.
+
+Lemma units_of_in fuel : forall ts u, In u (units_of fuel ts) -> In (TCm (u_blk u) (u_text u)) ts.
+Proof.
+  induction fuel as [|f IH]; intros ts u H; cbn [units_of] in H; [destruct H|].
+  destruct ts as [|t r]; [destruct H|].
+  destruct t as [|blk text].
+  - right. now apply IH.
+  - pose proof (leading_nls_suffix r) as Hs. destruct (leading_nls r) as [n r'] eqn:E. cbn [snd] in Hs.
+    destruct H as [<-|H]; [now left|]. right. apply Hs. now apply IH.
+Qed.
+
+(* every comment of the gap, delimiter included, is a piece of the bytes between the two tokens *)
+Theorem gap_units_in_source_lemma : forall prev bs next g u,
+  gap_of_bytes prev bs next = Some g -> In u (g_units g) ->
+  exists a b, bs = a ++ delim (u_blk u) ++ u_text u ++ b.
+Proof.
+  intros prev bs next g u H Hu. unfold gap_of_bytes in H.
+  destruct (gap_tokens (length bs) bs) as [ts|] eqn:G; [|discriminate].
+  pose proof (leading_nls_suffix ts) as Hs.
+  destruct (leading_nls ts) as [pre r] eqn:E. injection H as <-. cbn [g_units snd] in *.
+  apply (gap_tokens_in _ _ _ _ _ G). apply Hs. now apply units_of_in in Hu.
 Qed.
